@@ -574,6 +574,22 @@ def execute(plan, prop, out, tr):
                                     "finite and moderate; the step then raised %s" %
                                     (c["opt"], ci, len(solver.rec) - 1, type(e).__name__), ci, "nonfinite-system")
                 finite = False
+            # Jinvp is differentiable "away from the zero rotation" only (the statement's operator set says so): a
+            # parameter that an overflowing trial and its roll-back left at exactly zero rotation is outside that set
+            if any(rs.get("op") == "jinvp" for rs in spec["residuals"]) and "Nan" in str(e):
+                rot0 = False
+                for rs in spec["residuals"]:
+                    if rs.get("op") == "jinvp":
+                        ps_ = kinds[rs["p"]]; pt_ = model.plist()[rs["p"]].detach()
+                        pt_ = pt_.tensor() if hasattr(pt_, "ltype") else pt_
+                        if ps_["kind"] == "alg":
+                            sl = {"SO3": slice(0, 3), "SE3": slice(3, 6), "RxSO3": slice(0, 3), "Sim3": slice(3, 6)}[ps_["fam"]]
+                            rot0 = rot0 or bool((pt_[..., sl].norm(dim=-1) < 1e-6).any())
+                        else:
+                            sl = {"SO3": slice(0, 3), "SE3": slice(3, 6), "RxSO3": slice(0, 3), "Sim3": slice(3, 6)}[ps_["fam"]]
+                            rot0 = rot0 or bool((pt_[..., sl].norm(dim=-1) < 1e-6).any())    # vector part of the quaternion
+                if rot0:
+                    out.declined("Jinvp at the zero rotation (outside the operator set's domain)"); break
             if not finite or not math.isfinite(big) or big > 1e6:
                 # accept-everything configurations (reject=0, tiny damping) can run away to 1e12 rad rotations, where
                 # float32 Jacobians overflow to NaN and modjac's own assertion fires: a diverged run has no verdict
